@@ -532,6 +532,15 @@ func genSigForks(c *ctx, emit func(ev)) {
 				// ASN.1
 				der := derSig(rr, ss)
 				emit(ev{"op": "VerifyASN1", "curve": cname, "digest": B(d), "sig": B(der), "valid": true})
+				// the same valid signature in other serialisations (fixed-width r || s as JOSE / WebCrypto write it, minimal
+				// r || s, the DER inside an OCTET STRING): not ASN.1 signatures
+				{
+					ob := (N.BitLen() + 7) / 8
+					raw := append(rr.FillBytes(make([]byte, ob)), ss.FillBytes(make([]byte, ob))...)
+					emit(ev{"op": "VerifyASN1", "curve": cname, "digest": B(d), "sig": B(raw), "valid": false})
+					emit(ev{"op": "VerifyASN1", "curve": cname, "digest": B(d), "sig": B(append(append([]byte{}, rr.Bytes()...), ss.Bytes()...)), "valid": false})
+					emit(ev{"op": "VerifyASN1", "curve": cname, "digest": B(d), "sig": B(append([]byte{0x04, byte(len(der))}, der...)), "valid": false})
+				}
 				rl := int(der[len(der)-len(ss.Bytes())-2-0]) // not used for offsets below; offsets are found structurally
 				_ = rl
 				hdr := 2
